@@ -1185,10 +1185,10 @@ pub fn generate(profile: Profile, verif_seed: u64, index: u64, tgt: Target) -> F
                     b.scn_byte_oneshots(t, 1, true, false, 40);
                 }
             }
-            match b.rng.below(6) {
+            match b.rng.below(8) {
                 0 | 1 => b.scn_shared_finder_race(40, 40, 2),
                 2 | 3 => b.scn_copy_vs_first_use(),
-                4 => b.scn_concurrent_construction(),
+                4 | 5 | 6 => b.scn_concurrent_construction(),
                 _ => {}
             }
             env.dispatch = Dispatch::Fresh;
